@@ -111,27 +111,589 @@ fn verif_sum_take(s: &[usize], n: usize) -> (r: usize)
     s.iter().take(n).sum::<usize>()
 }
 
+/// `rem` = the windows of length n of s from window k on, paired with their indices
+pub open spec fn enum_win_ok<T>(s: Seq<T>, n: int, k: int, rem: Seq<(usize, &[T])>) -> bool {
+    rem.len() == (if s.len() >= n { s.len() - n + 1 } else { 0 }) - k
+    && forall|j: int| 0 <= j < rem.len() ==> (#[trigger] rem[j]).0 == k + j && rem[j].1@ == s.subrange(k + j, k + j + n)
+}
 // TRUSTED: the body is the real expression `cols.windows(2).enumerate()`, moved into a function because Verus has no
 // `assume_specification` for provided trait methods (`Iterator::enumerate`).  Iterator::enumerate doc: "Creates an iterator which gives
-// the current iteration count as well as the next value. The iterator returned yields pairs (i, val)".
+// the current iteration count as well as the next value. The iterator returned yields pairs (i, val)"; windows: see above.
 #[verifier::external_body]
 fn verif_windows_enumerate<'a, T>(s: &'a [T], n: usize) -> (r: Enumerate<Windows<'a, T>>)
     requires n != 0,
-    ensures
-        r.obeys_prophetic_iter_laws(),
-        exists|w: Seq<&[T]>| win_ok(s@, n as int, w) && r.remaining().len() == w.len()
-            && forall|i: int| 0 <= i < w.len() ==> (#[trigger] r.remaining()[i]).0 == i && r.remaining()[i].1 == w[i],
+    ensures r.obeys_prophetic_iter_laws(), enum_win_ok(s@, n as int, 0, r.remaining()),
 {
     s.windows(n).enumerate()
 }
 
-//@@ fn src/ods.rs is_empty_row ret=r
+
+// ---------------------------------------------------------------------------------------------------------------
+// ORACLE of C04, written from the property: physical rows, repeat counts, the logical grid
+// ---------------------------------------------------------------------------------------------------------------
+/// what read_table hands to get_range: `cols[i]..cols[i+1]` delimits physical row i inside `cells`, one repeat count per row
+pub open spec fn wf_shape<T>(cs: Seq<T>, co: Seq<usize>, rp: Seq<usize>) -> bool {
+    &&& co.len() == rp.len() + 1
+    &&& forall|i: int, j: int| 0 <= i <= j < co.len() ==> co[i] <= co[j]
+    &&& co[co.len() - 1] <= cs.len()
+}
+pub open spec fn rlen(co: Seq<usize>, i: int) -> int { co[i + 1] - co[i] }
+/// physical cell (i, c) exists and is not the default value
+pub open spec fn nd_at<T: Default>(cs: Seq<T>, co: Seq<usize>, i: int, c: int) -> bool {
+    0 <= c < rlen(co, i) && cs[co[i] + c] != dflt::<T>()
+}
+pub open spec fn blank_row<T: Default>(cs: Seq<T>, co: Seq<usize>, i: int) -> bool { forall|c: int| !nd_at(cs, co, i, c) }
+
+/// logical row l is one of the copies of physical row i
+pub open spec fn in_phys(rp: Seq<usize>, i: int, l: int) -> bool { 0 <= i < rp.len() && rep_sum(rp, i) <= l < rep_sum(rp, i + 1) }
+pub open spec fn phys_of(rp: Seq<usize>, l: int) -> int { choose|i: int| in_phys(rp, i, l) }
+/// THE LOGICAL GRID: value at absolute position (l, c) -- the cell of the physical row that logical row l is a copy of,
+/// the default value beyond the end of that row or beyond the last row
+pub open spec fn lg<T: Default>(cs: Seq<T>, co: Seq<usize>, rp: Seq<usize>, l: int, c: int) -> T {
+    let i = phys_of(rp, l);
+    if in_phys(rp, i, l) && 0 <= c < rlen(co, i) { cs[co[i] + c] } else { dflt::<T>() }
+}
+pub open spec fn nd<T: Default>(cs: Seq<T>, co: Seq<usize>, rp: Seq<usize>, l: int, c: int) -> bool { lg(cs, co, rp, l, c) != dflt::<T>() }
+/// repeat counts are positive (ODF: positiveInteger) and the sheet fits the u32 coordinates of Range
+pub open spec fn hyp<T>(cs: Seq<T>, co: Seq<usize>, rp: Seq<usize>) -> bool {
+    &&& reps_pos(rp)
+    &&& rep_sum(rp, rp.len() as int) <= u32::MAX
+    &&& cs.len() <= u32::MAX
+}
+pub open spec fn reps_pos(rp: Seq<usize>) -> bool { forall|i: int| 0 <= i < rp.len() ==> #[trigger] rp[i] >= 1 }
+/// no logical row of the box [l0, l1] is entirely default
+pub open spec fn no_blank_row_in<T: Default>(cs: Seq<T>, co: Seq<usize>, rp: Seq<usize>, l0: int, l1: int) -> bool {
+    forall|l: int| l0 <= l <= l1 ==> #[trigger] row_has_nd(cs, co, rp, l)
+}
+pub open spec fn row_has_nd<T: Default>(cs: Seq<T>, co: Seq<usize>, rp: Seq<usize>, l: int) -> bool { exists|c: int| nd(cs, co, rp, l, c) }
+
+/// one row of the expected result: columns c0..=c1 of logical row l
+pub open spec fn erow<T: Default>(cs: Seq<T>, co: Seq<usize>, rp: Seq<usize>, c0: int, c1: int, l: int) -> Seq<T> {
+    Seq::new((c1 + 1 - c0) as nat, |j: int| lg(cs, co, rp, l, c0 + j))
+}
+/// the expected row-major content for logical rows l0..l1 (exclusive), columns c0..=c1
+pub open spec fn ecells<T: Default>(cs: Seq<T>, co: Seq<usize>, rp: Seq<usize>, c0: int, c1: int, l0: int, l1: int) -> Seq<T>
+    decreases l1 - l0
+{
+    if l1 <= l0 { Seq::empty() } else { ecells(cs, co, rp, c0, c1, l0, l1 - 1) + erow(cs, co, rp, c0, c1, l1 - 1) }
+}
+/// columns c0..=c1 of physical row i, padded with the default value
+pub open spec fn prow_e<T: Default>(cs: Seq<T>, co: Seq<usize>, i: int, c0: int, c1: int) -> Seq<T> {
+    Seq::new((c1 + 1 - c0) as nat, |j: int| if c0 + j < rlen(co, i) { cs[co[i] + c0 + j] } else { dflt::<T>() })
+}
+
+//@@ props C04
+proof fn lemma_rep_sum_mono(rp: Seq<usize>, a: int, b: int)
+    requires 0 <= a <= b <= rp.len(),
+    ensures rep_sum(rp, a) <= rep_sum(rp, b), rep_sum(rp, a) >= 0,
+    decreases b,
+{
+    if a < b { lemma_rep_sum_mono(rp, a, b - 1); }
+    else if a > 0 { lemma_rep_sum_mono(rp, a - 1, a - 1); }
+}
+proof fn lemma_rep_sum_ge(rp: Seq<usize>, a: int, b: int)
+    requires 0 <= a <= b <= rp.len(), reps_pos(rp),
+    ensures rep_sum(rp, b) - rep_sum(rp, a) >= b - a,
+    decreases b,
+{
+    if a < b { lemma_rep_sum_ge(rp, a, b - 1); assert(rp[b - 1] >= 1); }
+}
+proof fn lemma_phys_unique(rp: Seq<usize>, i: int, l: int)
+    requires in_phys(rp, i, l),
+    ensures phys_of(rp, l) == i,
+{
+    let j = phys_of(rp, l);
+    assert(in_phys(rp, j, l));
+    if j < i { lemma_rep_sum_mono(rp, j + 1, i); }
+    if i < j { lemma_rep_sum_mono(rp, i + 1, j); }
+}
+proof fn lemma_lg_phys<T: Default>(cs: Seq<T>, co: Seq<usize>, rp: Seq<usize>, i: int, l: int, c: int)
+    requires in_phys(rp, i, l),
+    ensures
+        lg(cs, co, rp, l, c) == (if 0 <= c < rlen(co, i) { cs[co[i] + c] } else { dflt::<T>() }),
+        nd(cs, co, rp, l, c) <==> nd_at(cs, co, i, c),
+{
+    lemma_phys_unique(rp, i, l);
+}
+proof fn lemma_nd_phys<T: Default>(cs: Seq<T>, co: Seq<usize>, rp: Seq<usize>, l: int, c: int)
+    requires nd(cs, co, rp, l, c),
+    ensures in_phys(rp, phys_of(rp, l), l), nd_at(cs, co, phys_of(rp, l), c),
+{
+}
+/// a logical row between the first copy of physical row a and the last copy of physical row b - 1 is a copy of one of them
+proof fn lemma_find_phys(rp: Seq<usize>, a: int, b: int, l: int) -> (i: int)
+    requires 0 <= a <= b <= rp.len(), rep_sum(rp, a) <= l < rep_sum(rp, b),
+    ensures a <= i < b, in_phys(rp, i, l),
+    decreases b,
+{
+    if l >= rep_sum(rp, b - 1) { b - 1 } else { lemma_find_phys(rp, a, b - 1, l) }
+}
+proof fn lemma_erow_phys<T: Default>(cs: Seq<T>, co: Seq<usize>, rp: Seq<usize>, c0: int, c1: int, i: int, l: int)
+    requires in_phys(rp, i, l), 0 <= c0,
+    ensures erow(cs, co, rp, c0, c1, l) =~= prow_e(cs, co, i, c0, c1),
+{
+    assert forall|j: int| 0 <= j < c1 + 1 - c0 implies erow(cs, co, rp, c0, c1, l)[j] == prow_e(cs, co, i, c0, c1)[j] by {
+        lemma_lg_phys(cs, co, rp, i, l, c0 + j);
+    }
+    assert(erow(cs, co, rp, c0, c1, l).len() == prow_e(cs, co, i, c0, c1).len());
+    assert(erow(cs, co, rp, c0, c1, l) =~= prow_e(cs, co, i, c0, c1));
+}
+proof fn lemma_ecells<T: Default>(cs: Seq<T>, co: Seq<usize>, rp: Seq<usize>, c0: int, c1: int, l0: int, l1: int)
+    requires l0 <= l1, c0 <= c1,
+    ensures
+        ecells(cs, co, rp, c0, c1, l0, l1).len() == (l1 - l0) * (c1 + 1 - c0),
+        forall|l: int, j: int| l0 <= l < l1 && 0 <= j < c1 + 1 - c0 ==>
+            ecells(cs, co, rp, c0, c1, l0, l1)[#[trigger] ((l - l0) * (c1 + 1 - c0) + j)] == lg(cs, co, rp, l, c0 + j),
+    decreases l1 - l0,
+{
+    let w = c1 + 1 - c0;
+    if l1 > l0 {
+        lemma_ecells(cs, co, rp, c0, c1, l0, l1 - 1);
+        let prev = ecells(cs, co, rp, c0, c1, l0, l1 - 1);
+        let last = erow(cs, co, rp, c0, c1, l1 - 1);
+        assert((l1 - l0) * w == (l1 - 1 - l0) * w + w) by (nonlinear_arith);
+        assert forall|l: int, j: int| l0 <= l < l1 && 0 <= j < w implies
+            ecells(cs, co, rp, c0, c1, l0, l1)[#[trigger] ((l - l0) * w + j)] == lg(cs, co, rp, l, c0 + j) by {
+            if l < l1 - 1 {
+                assert((l - l0) * w + j < (l1 - 1 - l0) * w) by (nonlinear_arith) requires l - l0 + 1 <= l1 - 1 - l0, 0 <= j < w;
+                assert((l - l0) * w + j >= 0) by (nonlinear_arith) requires l - l0 >= 0, 0 <= j, w > 0;
+            } else {
+                assert((prev + last)[(l1 - 1 - l0) * w + j] == last[j]);
+            }
+        }
+    } else {
+        assert((l1 - l0) * w == 0) by (nonlinear_arith) requires l1 - l0 == 0;
+    }
+}
+/// under lawful(T) a clone is equal to the original
+proof fn lemma_cloned<T: Default + Clone + PartialEq>(a: T, b: T)
+    requires lawful::<T>(), cloned::<T>(a, b),
+    ensures a == b,
+{}
+
+/// Vec::extend_from_slice under lawful(T): the new content is the old content followed by the slice
+proof fn lemma_extend<T: Default + Clone + PartialEq>(v0: Seq<T>, sl: Seq<T>, v1: Seq<T>)
+    requires
+        lawful::<T>(),
+        v1.len() == v0.len() + sl.len(),
+        forall|i: int| 0 <= i < v0.len() ==> v1[i] == v0[i],
+        forall|i: int| 0 <= i < sl.len() ==> cloned::<T>(sl[i], #[trigger] v1[v0.len() + i]),
+    ensures v1 =~= v0 + sl,
+{
+    assert forall|i: int| 0 <= i < sl.len() implies v1[v0.len() + i] == sl[i] by { lemma_cloned::<T>(sl[i], v1[v0.len() + i]); }
+}
+/// what the first loop of get_range has established after k physical rows
+pub open spec fn bbox_inv<T: Default>(cs: Seq<T>, co: Seq<usize>, rp: Seq<usize>, k: int, row_min: Option<usize>, row_max: usize, col_min: usize,
+    col_max: usize, fe: usize, gm_c: int, gx_c: int, gmin: int, gmax: int) -> bool {
+    match row_min {
+        None => row_max == 0 && col_min == usize::MAX && col_max == 0 && fe == 0 && forall|i: int| 0 <= i < k ==> blank_row(cs, co, i),
+        Some(m) => {
+            &&& m <= row_max < k
+            &&& nd_at(cs, co, m as int, gm_c) && nd_at(cs, co, row_max as int, gx_c)
+            &&& forall|i: int| 0 <= i < m ==> blank_row(cs, co, i)
+            &&& forall|i: int| row_max < i < k ==> blank_row(cs, co, i)
+            &&& col_min <= col_max
+            &&& forall|i: int, c: int| 0 <= i < k && nd_at(cs, co, i, c) ==> col_min <= c <= col_max
+            &&& m <= gmin <= row_max && nd_at(cs, co, gmin, col_min as int)
+            &&& m <= gmax <= row_max && nd_at(cs, co, gmax, col_max as int)
+            &&& fe == (if rep_sum(rp, m as int) >= m { rep_sum(rp, m as int) - m } else { 0 })
+        },
+    }
+}
+/// the remaining items of the zipped iterator of the second loop: windows t.. of cols with their repeat counts, up to `total`
+pub open spec fn zip_ok(co: Seq<usize>, rp: Seq<usize>, t: int, total: int, rem: Seq<(&[usize], &usize)>) -> bool {
+    rem.len() == total - t
+    && forall|j: int| 0 <= j < rem.len() ==> (#[trigger] rem[j]).0@ == co.subrange(t + j, t + j + 2) && *rem[j].1 == rp[t + j]
+}
+
+//@@ fn src/ods.rs is_empty_row props=C04 ret=r
+//@@ sig
+    requires
+        lawful::<T>(),
+    ensures
+        //# C04.is_empty_row
+        r == (forall|i: int| 0 <= i < row@.len() ==> row@[i] == dflt::<T>()),
+//@@ closure 0
+    -> (res: bool) ensures lawful::<T>() ==> res == (*x == dflt::<T>())
+//@@ replace /row\.iter\(\)\.all\(/ the temporary iterator is given a name (let-introduction) so that the proof can refer to its items; vstd's contract of Iterator::all speaks about the items of the iterator
+{ let mut __it = row.iter(); let ghost __rem = __it.remaining(); let __r = __it.all(
+//@@ after /T::default\(\)\)/
+    ; proof {
+        if __r {
+            assert forall|i: int| 0 <= i < row@.len() implies row@[i] == dflt::<T>() by { let x = __rem[i]; }
+        }
+    }
+    __r }
 //@@ end
 
 //@@ fn src/ods.rs get_range props=C04 ret=r
+//@@ sig
+    requires
+        lawful::<T>(),
+        wf_shape(cells@, cols@, rows_repeats@),
+        // resource bound: fewer than 2^31 physical rows and cells (the product `height * width` is computed in usize)
+        cols@.len() <= 0x7fff_ffff, cells@.len() <= 0x7fff_ffff,
+    ensures
+        //# C04.empty_iff
+        hyp(cells@, cols@, rows_repeats@) ==>
+            ((forall|l: int, c: int| !nd(cells@, cols@, rows_repeats@, l, c)) <==> r.data().len() == 0),
+        //# C04.empty_is_default_range
+        r.data().len() == 0 ==> r.lo() == (0u32, 0u32) && r.hi() == (0u32, 0u32),
+        //# C04.bbox_contains
+        hyp(cells@, cols@, rows_repeats@) ==> forall|l: int, c: int| nd(cells@, cols@, rows_repeats@, l, c) ==>
+            r.lo().0 <= l <= r.hi().0 && r.lo().1 <= c <= r.hi().1,
+        //# C04.bbox_tight
+        hyp(cells@, cols@, rows_repeats@) && r.data().len() > 0 ==>
+            (exists|c: int| nd(cells@, cols@, rows_repeats@, r.lo().0 as int, c)) && (exists|c: int| nd(cells@, cols@, rows_repeats@, r.hi().0 as int, c))
+            && (exists|l: int| nd(cells@, cols@, rows_repeats@, l, r.lo().1 as int)) && (exists|l: int| nd(cells@, cols@, rows_repeats@, l, r.hi().1 as int)),
+        //# C04.len_is_h_times_w
+        hyp(cells@, cols@, rows_repeats@) && r.data().len() > 0 ==>
+            r.data().len() == (r.hi().0 - r.lo().0 + 1) * (r.hi().1 - r.lo().1 + 1),
+        //# C04.placement
+        hyp(cells@, cols@, rows_repeats@) && r.data().len() > 0 ==>
+            forall|l: int, c: int| r.lo().0 <= l <= r.hi().0 && r.lo().1 <= c <= r.hi().1 ==>
+                r.data()[(l - r.lo().0) * (r.hi().1 - r.lo().1 + 1) + (c - r.lo().1)] == lg(cells@, cols@, rows_repeats@, l, c),
+        //# C04.len_is_h_times_w_outside_known_defect
+        hyp(cells@, cols@, rows_repeats@) && r.data().len() > 0
+            && (r.lo().1 == 0 || no_blank_row_in(cells@, cols@, rows_repeats@, r.lo().0 as int, r.hi().0 as int)) ==>
+            r.data().len() == (r.hi().0 - r.lo().0 + 1) * (r.hi().1 - r.lo().1 + 1),
+        //# C04.placement_outside_known_defect
+        hyp(cells@, cols@, rows_repeats@) && r.data().len() > 0
+            && (r.lo().1 == 0 || no_blank_row_in(cells@, cols@, rows_repeats@, r.lo().0 as int, r.hi().0 as int)) ==>
+            forall|l: int, c: int| r.lo().0 <= l <= r.hi().0 && r.lo().1 <= c <= r.hi().1 ==>
+                r.data()[(l - r.lo().0) * (r.hi().1 - r.lo().1 + 1) + (c - r.lo().1)] == lg(cells@, cols@, rows_repeats@, l, c),
+//@@ closure 0
+    -> (res: bool) ensures lawful::<T>() ==> res == (*c != dflt::<T>())
+//@@ closure 1
+    -> (res: bool) ensures lawful::<T>() ==> res == (*c != dflt::<T>())
+//@@ body
+    let ghost cs = cells@;
+    let ghost co = cols@;
+    let ghost rp = rows_repeats@;
+    let ghost n = co.len() - 1;
+    let ghost mut k: int = 0;
+    let ghost mut gm_c: int = 0;
+    let ghost mut gx_c: int = 0;
+    let ghost mut gmin: int = 0;
+    let ghost mut gmax: int = 0;
 //@@ r6 0 iter /cols\.windows\(2\)\.enumerate\(\)/ Verus cannot attach a specification to the provided trait method Iterator::enumerate; the expression is moved verbatim into the trusted wrapper verif_windows_enumerate
 verif_windows_enumerate(cols, 2)
 //@@ r6 1
+//@@ loop 0
+            invariant
+                cs == cells@, co == cols@, rp == rows_repeats@, n == co.len() - 1, wf_shape(cs, co, rp), lawful::<T>(),
+                __it0.obeys_prophetic_iter_laws(), 0 <= k <= n, enum_win_ok(co, 2, k, __it0.remaining()),
+                bbox_inv(cs, co, rp, k, row_min, row_max, col_min, col_max, first_empty_rows_repeated, gm_c, gx_c, gmin, gmax),
+            ensures
+                k == n,
+            decreases n - k,
+//@@ before /let row = &cells\[w\[0\]/#0of2
+            proof {
+                assert(i == k);
+                assert(w@ =~= co.subrange(k, k + 2));
+                assert(w@[0] == co[k] && w@[1] == co[k + 1]);
+                assert(co[k] <= co[k + 1] <= co[n]);
+            }
+//@@ after /let row = &cells\[w\[0\][^;]*;/#0of2
+            proof {
+                assert(row@ =~= cs.subrange(co[k] as int, co[k + 1] as int));
+                assert(forall|c: int| 0 <= c < rlen(co, k) ==> row@[c] == cs[co[k] + c]);
+            }
+            let ghost mut found = false;
+//@@ after /if let Some\(p\) = row\.iter\(\)\.position\([^{]*\{/
+                proof {
+                    // p is the first non-default cell of physical row k
+                    assert(row@[p as int] != dflt::<T>());
+                    assert forall|j: int| 0 <= j < p implies row@[j] == dflt::<T>() by { }
+                    assert(nd_at(cs, co, k, p as int));
+                    assert forall|c: int| nd_at(cs, co, k, c) implies c >= p by {
+                        assert(row@[c] == cs[co[k] + c]);
+                    }
+                    found = true;
+                    if row_min is None { gm_c = p as int; }
+                    gx_c = p as int;
+                    if p <= col_min { gmin = k; }
+                }
+//@@ after /if let Some\(p\) = row\.iter\(\)\.rposition\([^{]*\{/
+                    proof {
+                        assert(row@[p as int] != dflt::<T>());
+                        assert forall|j: int| p < j < row@.len() implies row@[j] == dflt::<T>() by { }
+                        assert(nd_at(cs, co, k, p as int));
+                        assert forall|c: int| nd_at(cs, co, k, c) implies c <= p by {
+                            assert(row@[c] == cs[co[k] + c]);
+                        }
+                        if p >= col_max { gmax = k; }
+                    }
+//@@ after /if p > col_max \{[^}]*\}\s*\}\s*\}/
+            proof {
+                if !found {
+                    assert forall|c: int| !nd_at(cs, co, k, c) by {
+                        if nd_at(cs, co, k, c) { assert(row@[c] == cs[co[k] + c]); assert(row@[c] != dflt::<T>()); }
+                    }
+                    assert(blank_row(cs, co, k));
+                }
+                k = k + 1;
+            }
+//@@ before /let row_min = match row_min/
+    proof {
+        if row_min is None {
+            assert forall|l: int, c: int| !nd(cs, co, rp, l, c) by {
+                if nd(cs, co, rp, l, c) {
+                    lemma_nd_phys(cs, co, rp, l, c);
+                    assert(blank_row(cs, co, phys_of(rp, l)));
+                }
+            }
+        }
+    }
+//@@ before /let cells_len = /
+    let ghost m: int = row_min as int;
+    let ghost x0: usize = row_max;
+    let ghost total: int = imin(n, m + x0 + 1);
+    let ghost mut t: int = m;
+    let ghost mut pb: int = m;
+    let ghost mut good: bool = true;
+    let ghost mut bw: int = 0;
+    let ghost l0: int = rep_sum(rp, m);
+    proof {
+        assert(bbox_inv(cs, co, rp, n, Some(row_min), x0, col_min, col_max, first_empty_rows_repeated, gm_c, gx_c, gmin, gmax));
+        // col_max indexes a cell of physical row gmax
+        assert(col_max < rlen(co, gmax));
+        assert(co[gmax + 1] <= co[n]);
+        assert(col_max + 1 <= 0x7fff_ffff);
+        assert((row_max + 1 - row_min) * (col_max + 1 - col_min) <= 0x7fff_ffff * 0x7fff_ffff) by (nonlinear_arith)
+            requires 0 <= row_max + 1 - row_min <= 0x7fff_ffff, 0 <= col_max + 1 - col_min <= 0x7fff_ffff;
+    }
+//@@ loop 1
+            invariant
+                cs == cells@, co == cols@, rp == rows_repeats@, n == co.len() - 1, wf_shape(cs, co, rp), lawful::<T>(),
+                bbox_inv(cs, co, rp, n, Some(row_min), x0, col_min, col_max, first_empty_rows_repeated, gm_c, gx_c, gmin, gmax),
+                m == row_min, total == imin(n, m + x0 + 1), l0 == rep_sum(rp, m),
+                __it1.obeys_prophetic_iter_laws(), m <= t <= total, zip_ok(co, rp, t, total, __it1.remaining()),
+                empty_cells@.len() == col_max + 1, forall|j: int| 0 <= j < empty_cells@.len() ==> empty_cells@[j] == dflt::<T>(),
+                m <= pb <= t, pb <= x0 + 1, t > x0 ==> pb == x0 + 1, t > m ==> pb > m,
+                forall|i: int| pb <= i < t ==> blank_row(cs, co, i),
+                row_max - consecutive_empty_rows >= x0 - (t - m), consecutive_empty_rows <= t - m, col_max < 0x7fff_ffff,
+                reps_pos(rp) ==> empty_row_repeats == rep_sum(rp, t) - rep_sum(rp, pb) && consecutive_empty_rows == t - pb
+                    && row_max == x0 + (rep_sum(rp, pb) - l0) - (pb - m)
+                    && (t > m ==> new_cells@.len() > 0)
+                    && (good ==> new_cells@ == ecells(cs, co, rp, col_min as int, col_max as int, l0, rep_sum(rp, pb))),
+                !good ==> col_min > 0 && m < bw < x0 && blank_row(cs, co, bw),
+            ensures
+                t == total,
+            decreases total - t,
+//@@ before /let row = &cells\[w\[0\]/#1of2
+            let ghost i: int = t;
+            proof {
+                t = t + 1;
+                assert(w@ =~= co.subrange(i, i + 2));
+                assert(w@[0] == co[i] && w@[1] == co[i + 1]);
+                assert(co[i] <= co[i + 1] <= co[n]);
+                assert(*row_repeats == rp[i]);
+                assert(rep_sum(rp, i + 1) == rep_sum(rp, i) + rp[i]);
+                lemma_rep_sum_mono(rp, m, pb); lemma_rep_sum_mono(rp, pb, i);
+            }
+//@@ after /let row = &cells\[w\[0\][^;]*;/#1of2
+            proof {
+                assert(row@ =~= cs.subrange(co[i] as int, co[i + 1] as int));
+                assert(forall|c: int| 0 <= c < rlen(co, i) ==> row@[c] == cs[co[i] + c]);
+            }
+//@@ after /if is_empty_row\(row\) \{/
+                proof {
+                    assert forall|c: int| !nd_at(cs, co, i, c) by {
+                        if nd_at(cs, co, i, c) { assert(row@[c] == cs[co[i] + c]); }
+                    }
+                    assert(blank_row(cs, co, i));
+                    assert(i != x0 && i != m);
+                }
+//@@ before /if empty_row_repeats > 0 \{/
+            let ghost wc: int = choose|j: int| 0 <= j < row@.len() && row@[j] != dflt::<T>();
+            proof {
+                assert(nd_at(cs, co, i, wc));
+                assert(col_min <= wc <= col_max);
+                assert(i <= x0) by { if i > x0 { assert(blank_row(cs, co, i)); } }
+            }
+//@@ before /row_max = row_max \+ empty_row_repeats/
+                proof {
+                    if reps_pos(rp) {
+                        assert(pb < i);
+                        assert(pb > m) by { if i == m { } }
+                        if col_min > 0 && good { good = false; bw = pb; }
+                    }
+                }
+                let ghost len2 = new_cells@.len();
+//@@ loop 2 it2
+                    invariant
+                        cs == cells@, co == cols@, rp == rows_repeats@, n == co.len() - 1, wf_shape(cs, co, rp), lawful::<T>(),
+                        empty_cells@.len() == col_max + 1, forall|j: int| 0 <= j < empty_cells@.len() ==> empty_cells@[j] == dflt::<T>(),
+                        0 <= m <= pb <= i < n, l0 == rep_sum(rp, m), col_min <= col_max,
+                        forall|r: int| pb <= r < i ==> blank_row(cs, co, r),
+                        new_cells@.len() >= len2,
+                        reps_pos(rp) ==> empty_row_repeats == rep_sum(rp, i) - rep_sum(rp, pb),
+                        reps_pos(rp) && good ==> col_min == 0
+                            && new_cells@ == ecells(cs, co, rp, col_min as int, col_max as int, l0, rep_sum(rp, pb) + it2.index@),
+//@@ before /new_cells\.extend_from_slice\(&empty_cells\);/
+                    let ghost v0 = new_cells@;
+//@@ after /new_cells\.extend_from_slice\(&empty_cells\);/
+                    proof {
+                        lemma_extend::<T>(v0, empty_cells@, new_cells@);
+                        if reps_pos(rp) && good {
+                            let l = rep_sum(rp, pb) + it2.index@;
+                            lemma_rep_sum_mono(rp, m, pb);
+                            let ip = lemma_find_phys(rp, pb, i, l);
+                            assert(blank_row(cs, co, ip));
+                            assert forall|j: int| 0 <= j < col_max + 1 implies #[trigger] erow(cs, co, rp, 0, col_max as int, l)[j] == dflt::<T>() by {
+                                lemma_lg_phys(cs, co, rp, ip, l, j);
+                                assert(!nd_at(cs, co, ip, j));
+                            }
+                            assert(empty_cells@ =~= erow(cs, co, rp, 0, col_max as int, l));
+                            assert(ecells(cs, co, rp, 0, col_max as int, l0, l + 1) == ecells(cs, co, rp, 0, col_max as int, l0, l) + erow(cs, co, rp, 0, col_max as int, l));
+                        }
+                    }
+//@@ before /\n\s*empty_row_repeats = 0;/
+                proof { pb = i; }
+//@@ before /if row_repeats > 1 \{/
+            proof {
+                if reps_pos(rp) {
+                    assert(rp[i] >= 1);
+                    if pb != i { lemma_rep_sum_ge(rp, pb, i); assert(false); }
+                }
+                pb = i;
+            }
+            let ghost len3 = new_cells@.len();
+//@@ loop 3 it3
+                invariant
+                    cs == cells@, co == cols@, rp == rows_repeats@, n == co.len() - 1, wf_shape(cs, co, rp), lawful::<T>(),
+                    empty_cells@.len() == col_max + 1, forall|j: int| 0 <= j < empty_cells@.len() ==> empty_cells@[j] == dflt::<T>(),
+                    0 <= m <= i < n, l0 == rep_sum(rp, m), col_min <= col_max, col_min < row@.len(), col_max < 0x7fff_ffff,
+                    row@ == cs.subrange(co[i] as int, co[i + 1] as int), co[i] <= co[i + 1] <= cs.len(),
+                    row_repeats == rp[i],
+                    new_cells@.len() >= len3, it3.index@ > 0 ==> new_cells@.len() > 0,
+                    reps_pos(rp) && good ==>
+                        new_cells@ == ecells(cs, co, rp, col_min as int, col_max as int, l0, rep_sum(rp, i) + it3.index@),
+//@@ before /match row\.len\(\)\.cmp/
+                let ghost v0 = new_cells@;
+                let ghost mut v1 = new_cells@;
+//@@ after /new_cells\.extend_from_slice\(&row\[col_min\.\.\]\);/#0of2
+                        proof {
+                            lemma_extend::<T>(v0, row@.subrange(col_min as int, row@.len() as int), new_cells@);
+                            v1 = new_cells@;
+                        }
+//@@ after /new_cells\.extend_from_slice\(&empty_cells\[row\.len\(\)\.\.\]\);/
+                        proof {
+                            lemma_extend::<T>(v1, empty_cells@.subrange(row@.len() as int, col_max + 1), new_cells@);
+                        }
+//@@ after /new_cells\.extend_from_slice\(&row\[col_min\.\.\]\);/#1of2
+                        proof {
+                            lemma_extend::<T>(v0, row@.subrange(col_min as int, row@.len() as int), new_cells@);
+                        }
+//@@ after /new_cells\.extend_from_slice\(&row\[col_min\.\.=col_max\]\);/
+                        proof {
+                            lemma_extend::<T>(v0, row@.subrange(col_min as int, col_max + 1), new_cells@);
+                        }
+//@@ after /Ordering::Greater => \{[^}]*\}\s*\}/
+                proof {
+                    let pe = prow_e(cs, co, i, col_min as int, col_max as int);
+                    assert(rlen(co, i) == row@.len());
+                    assert(new_cells@.len() == v0.len() + pe.len());
+                    assert forall|j: int| 0 <= j < pe.len() implies new_cells@[v0.len() + j] == pe[j] by {
+                        if col_min + j < row@.len() { assert(row@[col_min + j] == cs[co[i] + col_min + j]); }
+                    }
+                    assert(new_cells@ =~= v0 + pe);
+                    if reps_pos(rp) && good {
+                        let l = rep_sum(rp, i) + it3.index@;
+                        lemma_rep_sum_mono(rp, m, i);
+                        assert(rep_sum(rp, i + 1) == rep_sum(rp, i) + rp[i]);
+                        assert(in_phys(rp, i, l));
+                        lemma_erow_phys(cs, co, rp, col_min as int, col_max as int, i, l);
+                        assert(ecells(cs, co, rp, col_min as int, col_max as int, l0, l + 1)
+                            == ecells(cs, co, rp, col_min as int, col_max as int, l0, l) + erow(cs, co, rp, col_min as int, col_max as int, l));
+                    }
+                }
+//@@ after /Ordering::Greater => \{[^}]*\}\s*\}\s*\}/
+            proof {
+                pb = i + 1;
+                assert(rep_sum(rp, i + 1) == rep_sum(rp, i) + rp[i]);
+                if reps_pos(rp) { assert(rp[i] >= 1); }
+                if i == x0 { } else { assert(i < x0); }
+            }
+//@@ before /cells = new_cells;/
+        proof {
+            assert(t == total && total > x0);
+            assert(pb == x0 + 1);
+        }
+//@@ before /let row_min = row_min \+ first_empty_rows_repeated;/
+    proof {
+        if hyp(cs, co, rp) {
+            let c0 = col_min as int;
+            let c1 = col_max as int;
+            let l1 = rep_sum(rp, x0 + 1);
+            lemma_rep_sum_ge(rp, 0, m);
+            lemma_rep_sum_ge(rp, m, x0 + 1);
+            lemma_rep_sum_mono(rp, x0 + 1, n);
+            lemma_rep_sum_mono(rp, 0, m);
+            assert(rep_sum(rp, 0) == 0);
+            assert(first_empty_rows_repeated == l0 - m);
+            assert(row_min + first_empty_rows_repeated == l0);
+            assert(row_max + first_empty_rows_repeated == l1 - 1);
+            assert(l0 < l1 <= u32::MAX);
+            assert(col_max < rlen(co, gmax));
+            assert(co[gmax + 1] <= co[n]);
+            assert(col_max <= u32::MAX);
+            // the four sides touch a non-default logical cell
+            assert(rep_sum(rp, m + 1) == l0 + rp[m as int]); assert(rp[m as int] >= 1);
+            assert(in_phys(rp, m, l0));
+            lemma_lg_phys(cs, co, rp, m, l0, gm_c);
+            assert(nd(cs, co, rp, l0, gm_c));
+            assert(rep_sum(rp, x0 + 1) == rep_sum(rp, x0 as int) + rp[x0 as int]); assert(rp[x0 as int] >= 1);
+            assert(in_phys(rp, x0 as int, l1 - 1));
+            lemma_lg_phys(cs, co, rp, x0 as int, l1 - 1, gx_c);
+            assert(nd(cs, co, rp, l1 - 1, gx_c));
+            assert(rep_sum(rp, gmin + 1) == rep_sum(rp, gmin) + rp[gmin]); assert(rp[gmin] >= 1);
+            assert(in_phys(rp, gmin, rep_sum(rp, gmin)));
+            lemma_lg_phys(cs, co, rp, gmin, rep_sum(rp, gmin), c0);
+            assert(nd(cs, co, rp, rep_sum(rp, gmin), c0));
+            assert(rep_sum(rp, gmax + 1) == rep_sum(rp, gmax) + rp[gmax]); assert(rp[gmax] >= 1);
+            assert(in_phys(rp, gmax, rep_sum(rp, gmax)));
+            lemma_lg_phys(cs, co, rp, gmax, rep_sum(rp, gmax), c1);
+            assert(nd(cs, co, rp, rep_sum(rp, gmax), c1));
+            // every non-default logical cell lies inside
+            assert forall|l: int, c: int| nd(cs, co, rp, l, c) implies l0 <= l <= l1 - 1 && c0 <= c <= c1 by {
+                lemma_nd_phys(cs, co, rp, l, c);
+                let ip = phys_of(rp, l);
+                assert(m <= ip <= x0) by {
+                    if ip < m { assert(blank_row(cs, co, ip)); }
+                    if ip > x0 { assert(blank_row(cs, co, ip)); }
+                }
+                lemma_rep_sum_mono(rp, m, ip);
+                lemma_rep_sum_mono(rp, ip + 1, x0 + 1);
+            }
+            // content
+            if !good {
+                // the known defect was hit: then the data does not start in column 0 and a blank logical row lies inside the box
+                let lb = rep_sum(rp, bw);
+                lemma_rep_sum_mono(rp, m, bw);
+                lemma_rep_sum_mono(rp, bw + 1, x0 + 1);
+                assert(rep_sum(rp, bw + 1) == lb + rp[bw]); assert(rp[bw] >= 1);
+                assert(in_phys(rp, bw, lb));
+                assert(!row_has_nd(cs, co, rp, lb)) by {
+                    if row_has_nd(cs, co, rp, lb) {
+                        let c = choose|c: int| nd(cs, co, rp, lb, c);
+                        lemma_lg_phys(cs, co, rp, bw, lb, c);
+                        assert(nd_at(cs, co, bw, c));
+                    }
+                }
+                assert(!no_blank_row_in(cs, co, rp, l0, l1 - 1));
+            } else {
+                lemma_ecells(cs, co, rp, c0, c1, l0, l1);
+                let w = c1 + 1 - c0;
+                assert(cells@ == ecells(cs, co, rp, c0, c1, l0, l1));
+                assert forall|l: int, c: int| l0 <= l <= l1 - 1 && c0 <= c <= c1 implies
+                    ecells(cs, co, rp, c0, c1, l0, l1)[(l - l0) * (c1 - c0 + 1) + (c - c0)] == lg(cs, co, rp, l, c) by {
+                    assert((l - l0) * (c1 - c0 + 1) + (c - c0) == (l - l0) * w + (c - c0));
+                }
+            }
+        }
+    }
 //@@ replace /rows_repeats\.iter\(\)\.take\(i\)\.sum::<usize>\(\)/ Verus cannot attach a specification to the provided trait method Iterator::sum; the expression is moved verbatim into the trusted wrapper verif_sum_take
 verif_sum_take(rows_repeats, i)
 //@@ replace /row\.iter\(\)\.rposition\(/ slice::Iter::rposition cannot be given an assume_specification (its where-clause makes the path resolve to the provided trait method); the call is moved verbatim into the trusted wrapper verif_rposition
